@@ -15,22 +15,14 @@ def add(pid, files, theorems, full, statement, note=""):
     I[pid] = {"file": files[0], "extra_files": files[1:], "theorems": theorems, "full": full,
               "statement": statement, "partial_note": note}
 
-cs_done = all(have(f) for f in ["Props/CSRuns.v", "Props/CSSequences.v", "Props/CSWeak.v", "Props/CSNeutral.v",
-                                "Props/CSLevels.v", "Props/CSShortcut.v", "Props/CSFlags.v", "Props/C01.v"])
-c01_th = ["explicit_agrees", "explicit_invariants", "cs_runs", "cs_sequences_fast", "cs_weak", "cs_levels", "cs_flags", "cs_shortcut"]
-c01_files = ["Props/ExplicitSpec.v", "Props/ExplicitInv.v", "Props/CSRuns.v", "Props/CSSequencesFast.v", "Props/CSWeak.v",
-             "Props/CSLevels.v", "Props/CSFlags.v", "Props/CSShortcut.v"]
-if have("Props/CSNeutral.v"): c01_files.append("Props/CSNeutral.v"); c01_th.append("cs_neutral")
-if have("Props/CSSequences.v"): c01_files.append("Props/CSSequences.v"); c01_th.append("cs_sequences")
-if have("Props/CSAssemble.v"): c01_files.append("Props/CSAssemble.v"); c01_th += ["cs_para_assembly", "c01_char_assembly", "c01_final_assembly"]
-if have("Props/C01.v"): c01_files.insert(0, "Props/C01.v"); c01_th.insert(0, "c01_final")
-add("C01", c01_files, c01_th, cs_done,
-    "C01_final (Stmts5.v): for every valid case (UTF-8 or UTF-16 text, any data source, direction auto/LTR/RTL) the judge C01_judge holds on the model's observation: levels at character starts equal Spec.v's resolve_paragraph (UAX #9 X1-X10, W1-W7, N0-N2, I1-I2), X9-removed characters carry the preceding level or the paragraph level.",
-    "Proved for all inputs, stage by stage at character level and lifted to every encoding by length independence: X1-X8 (explicit_agrees), BD7 level runs (cs_runs), BD13/X10 on paragraphs without isolate initiators (cs_sequences_fast), W1-W7 (cs_weak: the fused single pass with retained BNs = the seven passes), I1/I2 and removed characters (cs_levels), the pure-LTR shortcut (cs_shortcut), the flags (cs_flags)"
-    + (", BD16/N0/N1/N2 (cs_neutral)" if have("Props/CSNeutral.v") else "")
-    + (", BD13/X10 in general (cs_sequences)" if have("Props/CSSequences.v") else "")
-    + ". Not yet theorems: " + ", ".join(x for x, f in [("BD16/N0-N2 against Spec.v", "Props/CSNeutral.v"), ("the general BD13 path (stack of pending sequences vs matching PDI)", "Props/CSSequences.v"), ("the assembly into C01_final", "Props/C01.v")] if not have(f))
-    + "; these are decided by C01_judge on the real crate's outputs and tested stage by stage by StageRel.stage_check on every generated case.")
+c01_files = ["Props/C01.v", "Props/ExplicitSpec.v", "Props/ExplicitInv.v", "Props/CSRuns.v", "Props/CSSequencesFast.v", "Props/CSSequences.v",
+             "Props/CSWeak.v", "Props/CSNeutral.v", "Props/CSLevels.v", "Props/CSFlags.v", "Props/CSShortcut.v", "Props/CSAssemble.v",
+             "Props/LengthIndependence.v"]
+c01_th = ["c01_final", "c01_char", "cs_para", "explicit_agrees", "explicit_invariants", "cs_runs", "cs_sequences_fast", "cs_sequences", "cs_weak",
+          "cs_neutral", "cs_levels", "cs_flags", "cs_shortcut", "cs_para_assembly_mixed", "c01_char_assembly", "c01_final_assembly",
+          "li_bidi_info", "li_para_bidi_info"]
+add("C01", c01_files, c01_th, all(have(f) for f in c01_files),
+    "C01_final (Stmts5.v): for every valid case (valid UTF-8 or any list of 16-bit units, any data source with the FSI proviso, direction auto/LTR/RTL) the judge C01_judge holds on the model's observation: the level at every character X9 keeps equals Spec.v's resolve_paragraph (UAX #9 P2/P3, X1-X8, X9, BD7, BD13, X10, W1-W7, BD16, N0-N2, I1-I2), X9-removed characters carry the preceding level or the paragraph level; both analysis types. Assembled from the stage theorems at character level (explicit_agrees, cs_runs, cs_sequences, cs_weak, cs_neutral, cs_levels, cs_shortcut, cs_flags) and lifted to every encoding by length independence.")
 add("C02", ["Props/C02.v", "Props/TextView.v", FINAL], ["C02_paragraphs_levels_fsi", "view_of_ok", "c02_final"], True,
     "C02_statement (Stmts2.v) and C02_final (Stmts5.v): for every encoding, data source, text and direction compute_initial_info never panics, classes = per-unit expansion of the classes with FSI resolved per X5c, paragraphs = the P1 split with levels per P2/P3 (FSI-class characters as long as U+2068: the data-source proviso); and the extracted judge C02_judge holds on the model's observation of every valid case (InitialInfo, BidiInfo, and ParagraphBidiInfo on single-paragraph text).")
 add("C03", ["Props/C03.v", "Props/CLLevels.v", "Props/LLLevels.v", FINAL], ["C03_reorder_levels_is_L1", "cl_reordered_levels", "ll_reordered_levels", "c03_final"], True,
@@ -45,30 +37,21 @@ add("C07", ["Props/LengthIndependence.v", "Props/Totality.v", FINAL, "Props/C18.
     "C07_final (Stmts5.v): for every valid case (valid UTF-8 or ANY list of 16-bit units, any data source with the FSI proviso, direction auto/0/1, lines of whole characters) every field of the model's observation is Ok: constructors, has_rtl, direction, level_at, reordered_levels(_per_char), visual_runs, deprecated::visual_runs, reorder_line, reorder_visual, get_base_direction(_full), and BidiInfo of every paragraph's substring. The model represents every Rust panic site (index, slice, unwrap/expect, assert) as a Panic value.")
 add("C08", ["Props/LengthIndependence.v", FINAL], ["C07_C08_constructors_thm", "li_bidi_info", "li_para_bidi_info", "c08_final"], True,
     "C07_C08_constructors (Stmts4.v) and C08_final: class and level vectors have one entry per code unit, all units of a character carry the same class and level (stored analysis and line levels), paragraph level <= level <= 126, the per-character vector has one entry per character — because the analysis in any encoding is the per-unit expansion of the character-level analysis (length independence).")
-c09 = have("Props/C09.v")
-add("C09", (["Props/C09.v"] if c09 else []) + ["Props/LengthIndependence.v", "Props/C18.v", "Props/LLLevels.v", "Props/LLRuns.v", "Props/LLReorderLine.v"],
-    (["c09_final"] if c09 else []) + ["li_bidi_info", "li_para_bidi_info", "C18_utf16_text_access", "ll_reordered_levels", "ll_visual_runs", "ll_reorder_line2"], c09,
-    "C09_final (Stmts5.v): for a UTF-16 case and the UTF-8 case of the same characters (lone surrogates read as U+FFFD) the paired judge C09_judge holds on the model's observations: same classes, levels, paragraphs, summary queries, line levels, runs, base direction character for character, and the reordered line decodes to the UTF-8 result (exactly its UTF-16 encoding for well-formed text).",
-    "Proved: both encodings' analyses and line queries are per-unit expansions of ONE character-level analysis (li_bidi_info, li_para_bidi_info, ll_reordered_levels, ll_visual_runs, ll_reorder_line2) and [u16] access is lossy decoding (C18). Not yet a theorem: the assembly into the paired judge C09_final; decided by C09_judge on real outputs (every UTF-16 case runs with its UTF-8 twin).")
+add("C09", ["Props/C09.v", "Props/LengthIndependence.v", "Props/C18.v", "Props/LLLevels.v", "Props/LLRuns.v", "Props/LLReorderLine.v"],
+    ["c09_final", "li_bidi_info", "li_para_bidi_info", "C18_utf16_text_access", "ll_reordered_levels", "ll_visual_runs", "ll_reorder_line2"], True,
+    "C09_final (Stmts5.v): for a UTF-16 case and the UTF-8 case of the same characters (lone surrogates read as U+FFFD) the paired judge C09_judge holds on the model's observations: same classes, levels, paragraphs, summary queries, line levels, runs, base direction character for character, and the reordered line decodes to the UTF-8 result (exactly its UTF-16 encoding for well-formed text). Both analyses are per-unit expansions of ONE character-level analysis; [u16] access is lossy decoding (C18).")
 add("C10", ["Props/C10.v", FINAL], ["C10_paragraph_independence", "c10_final"], True,
     "C10_statement (Stmts6.v) and C10_final: for every text, every paragraph of BidiInfo analysed on its own substring gives the same classes, levels and paragraph level; for a single-paragraph text ParagraphBidiInfo reports the same classes, levels and level (the line queries are then the same functions on the same arguments).")
-bd16 = have("Props/CSNeutral.v")
-add("C11", ["Props/ExplicitSpec.v", "Props/ExplicitInv.v", "Props/LengthIndependence.v"] + (["Props/CSNeutral.v"] if bd16 else []) + (["Props/C01.v"] if have("Props/C01.v") else []),
-    ["explicit_agrees", "explicit_invariants", "C07_C08_constructors_thm"] + (["cs_neutral"] if bd16 else []) + (["c11_final"] if have("Props/C01.v") else []),
-    bd16 and have("Props/C01.v"),
-    "explicit_agrees / explicit_invariants (Stmts2.v), C07_C08_constructors, CS_neutral, C11_final: explicit levels never exceed 125 and equal X1-X8 with the overflow counters at any depth, resolved levels never exceed 126, bracket pairing = BD16 with the 63-entry limit, and on inputs that reach the limits the levels are the specification's.",
-    "Proved for all inputs: explicit levels <= 125 and = X1-X8 incl. overflow-isolate / overflow-embedding / valid-isolate bookkeeping at any nesting depth (explicit_agrees, explicit_invariants); resolved levels <= 126 for every text of every encoding (C07_C08_constructors_thm)"
-    + ("; identify_bracket_pairs = BD16 with the 63 limit as part of cs_neutral" if bd16 else "") + ". Not yet theorems: "
-    + ("" if bd16 else "identify_bracket_pairs = BD16 with the 63 limit; ") + "the levels of deep inputs beyond these clauses are C01 (C11_final follows from C01_final); decided by C11_judge on inputs that reach the limits.")
-add("C12", ["Props/C12.v", "Props/LengthIndependence.v"] + (["Props/C01.v"] if have("Props/C01.v") else []),
-    ["C12_data_source_extensional", "li_bidi_info", "li_para_bidi_info"] + (["c01_final"] if have("Props/C01.v") else []), have("Props/C01.v"),
-    "C12_statement (Stmts2.v), length independence, C01_final with the data source universally quantified.",
-    "Proved: every constructor and query consults the data source only through its two answers and the convenience constructors are the explicit built-in source (C12_data_source_extensional); results do not depend on how many code units a character occupies (li_bidi_info, li_para_bidi_info: expansion of the character-level analysis); every stage theorem of C01 is for an arbitrary data source. Not yet a theorem: C01_final itself (same open stages); decided by C01/C02 judges under adversarial data sources (family G5), which exposed D9-D11.")
-c13f = have("Props/C13.v")
-add("C13", (["Props/C13.v"] if c13f else ["Props/ExplicitSpec.v"]) + ["Props/C02.v"], (["c13_explicit"] if c13f else ["explicit_agrees"]) + ["C02_paragraphs_levels_fsi"], False,
-    "C13_explicit / C13_full (Stmts7.v), statements about Spec.v for two texts differing inside a matched valid isolate.",
-    ("Proved (about the specification, for all texts): the paragraph level and the X1-X8 levels and classes of every character outside the pair are unchanged (c13_explicit); " if c13f else "Proved: the model's explicit stage equals X1-X8 (explicit_agrees) and paragraph levels equal P2/P3 which skips isolates (C02); ")
-    + "not yet a theorem: the W/N stages on the outer sequences (C13_full) and its transfer to the model through C01; decided by the relational judge C13_judge on pairs of texts (family ISO, half of them with a bracket pair around the isolate).")
+add("C11", ["Props/C01.v", "Props/ExplicitSpec.v", "Props/ExplicitInv.v", "Props/LengthIndependence.v", "Props/CSNeutral.v"],
+    ["c11_final", "explicit_agrees", "explicit_invariants", "C07_C08_constructors_thm", "cs_neutral"], True,
+    "explicit_agrees / explicit_invariants (Stmts2.v), C07_C08_constructors (Stmts4.v), CS_neutral (Stmts6.v; its BD16 part bd16_sim: identify_bracket_pairs = Spec.bracket_pairs with the 63-entry limit taken from the regenerated constant), C11_final (Stmts5.v): explicit levels never exceed 125 and equal X1-X8 with the overflow-isolate / overflow-embedding / valid-isolate counters at any nesting depth, resolved levels never exceed 126, bracket pairing stops for the rest of the sequence at 63 pending openers, and on inputs that reach the limits the levels are the specification's (C01).")
+add("C12", ["Props/C12.v", "Props/C01.v", "Props/LengthIndependence.v", "Props/Finals.v"],
+    ["C12_data_source_extensional", "c01_final", "c02_final", "li_bidi_info", "li_para_bidi_info"], True,
+    "C12_statement (Stmts2.v), C01_final and C02_final with the data source a universally quantified field of the case, length independence: every constructor and query consults the data source only through its two answers; the levels and paragraphs are what UAX #9 yields for the classes and bracket values the source returns (proviso: FSI-class characters as long as U+2068), whatever the characters' real properties and however many code units they occupy; the convenience constructors are the explicit built-in source.")
+c13f = have("Props/C13Final.v")
+add("C13", (["Props/C13Final.v"] if c13f else []) + ["Props/C13.v", "Props/C01.v"], (["c13_final"] if c13f else []) + ["c13_full", "c13_explicit", "c01_final"], c13f,
+    "C13_full / C13_explicit (Stmts7.v; theorems about Spec.v: replacing the content of a matched valid LRI/RLI..PDI pair by other B-free isolate-balanced content leaves the paragraph level and the resolved level of every character outside the pair unchanged), C01_final (the model's levels are the specification's), C13_final (the relational judge holds on the model's observations of every such pair of cases).",
+    "Proved: C13 for the specification in full (c13_full, c13_explicit) and the model's levels equal the specification's (c01_final). Not yet a theorem: the bookkeeping that transfers the two to the judge on code-unit vectors (C13_final); decided by the relational judge C13_judge on pairs of texts (family ISO, half with a bracket pair around the isolate).")
 add("C14", ["Props/C14.v", "Props/C14Ref.v"], ["C14_table_structure", "C14_class_is_ucd16"], True,
     "C14_structure_statement (Stmts.v) and C14_reference_statement (Stmts6.v): on every sorted disjoint table the halving search = first-match lookup with default L; the regenerated table is sorted, disjoint, scalar-only; the format characters have their classes; version 16.0.0; and for EVERY code point (all of N) the built-in lookup equals the committed UCD 16.0 reference (UcdRef.v; provenance of the reference: DESIGN 5/C14).")
 add("C15", ["Props/C15.v", "Props/C14Ref.v"], ["C15_bracket_table", "C15_brackets_are_ucd16"], True,
